@@ -384,7 +384,7 @@ func main() {
 			}
 			return 120 * time.Second
 		},
-		Rule: "part U: one callable step over each of 6 input scopes (map-based with defaults / presence rules, references, recursive references, one-of over references, struct-mapped) x every raw input of V(scope) x 5 handler behaviours (conforming, non-conforming data, wrongly typed data, undeclared output id, declared error output) x {existing, unknown} step id, plus an input rejected only at the validation stage (must still be an InvalidInputError with the handler not run), plus 6 signal calls (valid, out-of-range data, wrongly typed data, unknown signal id, unknown step id, a handler declared for another step data type) per scope, compared with the reference interpreter (handler invocation count and argument, output id and serialized data, error types). Part S: CallStep / CallSignal for run ids r1, r2 issued by 2-4 (thorough 5) threads; every interleaving within the delay bound; initializer count, identity of the step data seen by step and signal handlers, and happens-before races on schema/ (sync shim + access events) are checked",
+		Rule: "part U: one callable step over each of 6 input scopes (map-based with defaults / presence rules, references, recursive references, one-of over references, struct-mapped) x every raw input of V(scope) x 5 handler behaviours (conforming, non-conforming data, wrongly typed data, undeclared output id, declared error output) x {existing, unknown} step id, plus an input rejected only at the validation stage (must still be an InvalidInputError with the handler not run), plus 6 signal calls (valid, out-of-range data, wrongly typed data, unknown signal id, unknown step id, a handler declared for another step data type) per scope, compared with the reference interpreter (handler invocation count and argument, output id and serialized data, error types). Part S: CallStep / CallSignal for run ids r1, r2 issued by 2-4 (thorough 5) threads, on a fresh callable schema and on one that has already served 67-71 other runs one after the other (a step that returned, or a first signal, 70 runs ago still belongs to its run); every interleaving within the delay bound; initializer count, identity of the step data seen by step and signal handlers, and happens-before races on schema/ (sync shim + access events) are checked",
 		Assumptions: []string{
 			"the error type for output data that violates the output schema is not pinned down by the property (any error is accepted)",
 			"scheduling points at the mutex operations of schema/step.go; access events as in C13",
